@@ -10,9 +10,9 @@ COQ_EXTRA = ['theories/Generated/K_gfx_selftest.vo', 'theories/Generated/K_gff_s
 MODEL = ('ExC17', ['c17_ops.ml', 'c17_main.ml'])
 MONITOR = ('MonC17', ['c17_ops.ml', 'c17_mon_main.ml'])
 SIZES = [8192, 4096, 256, 256, 4352]
-RULE = ('case = initial contents of the five regions + a history of 1-30 accessor calls (all 18 accessors), arguments '
+RULE = ('case = initial contents of the five regions + a history of 1-80 accessor calls (all 18 accessors), arguments '
         'concentrated on the edges (crossing the right/bottom edge by 0, 1, many cells; ids at 0/15/16/240/255; TRANSPARENT '
-        'pixels; ragged rows; None fields); implementation run on a real Game object, every returned value and the whole '
+        'pixels; ragged rows; blocks of 140 rows or columns, offsets up to 1000; None fields); implementation run on a real Game object, every returned value and the whole '
         'memory after the history compared with the extracted model (correspondence) and with Spec/PlainMem.v through '
         'holds_C17_seq (monitor); a separate stream of out-of-contract calls checks that model and implementation raise '
         'alike. evaluations = accessor calls; distinct+non-trivial = distinct (op kind, arguments) that either return a '
@@ -20,7 +20,40 @@ RULE = ('case = initial contents of the five regions + a history of 1-30 accesso
 ASSUMPTIONS = ['in-contract arguments are the documented ranges (docstrings): ids 0-255/0-63, cells 0-127 x 0-63, colours 0-15 or '
                'TRANSPARENT, flags 0-255, non-negative offsets; out-of-contract calls are compared model-vs-implementation only']
 PARTIAL = ''
-CLAIM = None   # set below once the theorems exist
+CLAIM = dict(
+    text=("Theorems (Coq, closed under the global context). C17_refines: for every well-formed memory (five regions of the "
+          "right sizes holding bytes) and every in-contract call of any of the 18 accessors - get_sprite/set_sprite, map "
+          "get/set cell, get/set_rect_tiles, the four flag ops, get/set note, sfx get/set properties, music get/set channel, "
+          "get/set properties - with any id / coordinates / offsets, rows of any number, length and raggedness, any overhang "
+          "across the right or bottom edge, TRANSPARENT pixels and None fields, the model of the code never raises and "
+          "returns exactly the value and the memory that the plain model of the documented semantics (Spec/PlainMem.v: "
+          "pixels, cells with rows 32-63 in gfx bytes 4096.., flags, note words, properties, channels) predicts; the result "
+          "is again well formed. C17_history: the same for every sequence of such calls. C17_frame / C17_frame_len / "
+          "C17_getter_pure (about the plain model, no hypotheses): every byte of every region outside the explicit "
+          "footprint of a call keeps its value - the footprint of set_sprite is exactly the bytes of its non-transparent, "
+          "non-clipped pixels, so clipped data neither wraps into the next row nor alters other cells - no region changes "
+          "size, getters change nothing. C17_set_sprite_pixels / C17_set_rect_cells: after set_sprite every pixel of the "
+          "sheet (after set_rect_tiles every cell of the map, rows 32-63 read through sprite memory) holds the block's value "
+          "at that offset if the ragged block has a non-TRANSPARENT value there and its old value otherwise (read-back, "
+          "frame, clipping, transparency in one per-cell equation). Get-after-set laws: C17_pixel_readback, C17_cell_readback (incl. the shared "
+          "rows), C17_mapget_after_mapset, C17_flagget_after_flagreset, C17_noteget_after_noteset (None fields keep their "
+          "value), C17_changet_after_chanset. C17_refines_nogfx / C17_nogfx_refuses: a Map without a Gfx behaves identically "
+          "on calls confined to rows 0-31 and refuses cell accesses below. C17_monitor_sound / C17_model_holds(_seq): the "
+          "extracted monitor predicate says exactly 'no raise, the plain model's value and memory', and the code's model "
+          "passes it on every call and history. Bit-level facts are complete vm_compute sweeps over the regenerated kernels "
+          "(all bytes, all byte pairs for flags, all 65,536 note words, all note-field updates); loops by induction with "
+          "invariants. Tie: kernels (index expressions, masks, clip tests, asserts) regenerated from gfx.py, map.py, "
+          "gff.py, sfx.py, music.py on every run and self-tested in Coq; the hand-modelled loops are run extracted against "
+          "the real Game object on generated edge-biased histories (values after every call and the whole memory), and "
+          "the extracted plain model (holds_C17_seq, built from Spec/ only) judges the implementation's real observations."),
+    note=("Three clipping defects found by this check were repaired in the implementation (findings/known_findings.json, fixed): "
+          "set_sprite clipped with > 128 (column 128 wrapped into the next row, row 128 raised IndexError), set_rect_tiles "
+          "clipped rows with > 127 (AssertionError below row 63), get_rect_tiles asserted instead of zero-filling below the "
+          "map. Trusted: Coq kernel+VM, translator, extraction, OCaml glue, Spec/PlainMem.v as a faithful reading of the "
+          "docstrings and the PICO-8 memory layout, the in_contract ranges. Out-of-contract calls are only compared "
+          "model-vs-implementation (exception kinds)."),
+    technique='Coq refinement proof (sweeps on regenerated kernels + induction over loops) + correspondence + extracted plain model as monitor',
+    design_ref='8 C17')
 OPS_GET = ['gs', 'mgc', 'mgr', 'fg', 'sgn', 'sgp', 'mugc', 'mugp']
 
 
@@ -55,6 +88,17 @@ def _rows(rng, maxw, maxh, lo, hi, transparent=None):
     return '/'.join(lib.hx(r) for r in rows) if rows else '.'
 
 
+def _rows_big(rng, n, lo, hi, transparent=None):
+    """a block much larger than the sheet / map in one direction: n rows of 1-3 values or 1-3 rows of n values"""
+    def val():
+        return transparent if transparent is not None and rng.random() < 0.2 else rng.randrange(lo, hi + 1)
+    if rng.random() < 0.5:
+        rows = [bytes(val() for _ in range(rng.randrange(1, 4))) for _ in range(n)]
+    else:
+        rows = [bytes(val() for _ in range(n)) for _ in range(rng.randrange(1, 4))]
+    return '/'.join(lib.hx(r) for r in rows)
+
+
 def _opt(rng, hi):
     return 'N' if rng.random() < 0.3 else str(rng.choice([0, hi, rng.randrange(0, hi + 1)]))
 
@@ -65,6 +109,13 @@ def gen_op(rng, contract=True):
     ids = [0, 1, 14, 15, 16, 17, 127, 128, 239, 240, 241, 254, 255]
     if k == 'gs':
         return 'gs,%d,%d,%d' % (rng.choice(ids), rng.choice([1, 2, 3, 16, 17]), rng.choice([1, 2, 3, 16, 17]))
+    if k == 'ss' and rng.random() < 0.06:
+        # far offsets and blocks larger than the whole sheet (everything beyond the edges must be clipped)
+        return 'ss,%d,%d,%d,%s' % (rng.choice(ids), rng.choice([0, 5, 64, 119, 127, 128, 1000]),
+                                   rng.choice([0, 5, 64, 119, 127, 128, 1000]), _rows_big(rng, 140, 0, 15, 16))
+    if k == 'msr' and rng.random() < 0.06:
+        return 'msr,%d,%d,%s' % (rng.choice([0, 1, 100, 127, 128, 1000]), rng.choice([0, 1, 31, 32, 63, 64, 1000]),
+                                 _rows_big(rng, 140, 0, 255))
     if k == 'ss':
         return 'ss,%d,%d,%d,%s' % (rng.choice(ids + [rng.randrange(256)]), rng.choice([0, 0, 1, 3, 7, 8, 9]),
                                    rng.choice([0, 0, 1, 3, 7, 8, 9]), _rows(rng, 20, 20, 0, 15, 16))
@@ -114,9 +165,15 @@ def generate(tier, rng):
     n = 350 if tier == 'quick' else 8000
     kinds = ['random', 'random', 'zero', 'ff', 'ramp']
     for i in range(n):
-        ln = rng.choice([1, 2, 5, 12, 30])
-        yield {'hasgfx': 1, 'mem': [lib.hx(r) for r in _mem(rng, rng.choice(kinds))],
-               'ops': [gen_op(rng) for _ in range(ln)]}
+        ln = rng.choice([1, 2, 5, 12, 30, 30, 80])
+        case = {'hasgfx': 1, 'mem': [lib.hx(r) for r in _mem(rng, rng.choice(kinds))],
+                'ops': [gen_op(rng) for _ in range(ln)]}
+        if i % 8 == 7:
+            # a cart assembled through the public constructors from caller buffers (shared where equal)
+            case['build'] = 'buffers'
+            if rng.random() < 0.7:
+                case['mem'][3] = case['mem'][2]
+        yield case
     for i in range(60 if tier == 'quick' else 600):
         ops = [gen_op(rng) for _ in range(rng.randrange(0, 4))] + [gen_bad_op(rng)]
         yield {'hasgfx': rng.choice([1, 1, 0]), 'mem': [lib.hx(r) for r in _mem(rng, 'ramp')], 'ops': ops, 'bad': True}
@@ -135,6 +192,7 @@ def generate(tier, rng):
 
 def corpus_cases():
     z = [lib.hx(bytes(n)) for n in SIZES]
+    yield {'hasgfx': 1, 'mem': z, 'build': 'buffers', 'ops': ['fs,3,255', 'mugc,0,3', 'musc,1,2,5', 'fg,6,255']}
     # minimised pre-fix defects (kept as regression corpus)
     yield {'hasgfx': 1, 'mem': z, 'ops': ['ss,15,0,0,0102030405060708090a']}            # column 128 wrapped
     yield {'hasgfx': 1, 'mem': z, 'ops': ['ss,240,0,8,01/02']}                          # row 128 IndexError
@@ -219,10 +277,13 @@ def apply_op(g, op):
 
 def run_impl(case):
     from pico8.game.game import Game
-    g = Game.make_empty_game()
-    secs = [g.gfx, g.map, g.gff, g.music, g.sfx]
-    for s, h in zip(secs, case['mem']):
-        s._data[:] = lib.unhx(h)
+    if case.get('build') == 'buffers':
+        g, secs, _ = lib.game_from_buffers(case['mem'])
+    else:
+        g = Game.make_empty_game()
+        secs = [g.gfx, g.map, g.gff, g.music, g.sfx]
+        for s, h in zip(secs, case['mem']):
+            s._data[:] = lib.unhx(h)
     if not case.get('hasgfx', 1):
         g.map._gfx = None
     outs = []
